@@ -422,6 +422,22 @@ class Obligation:
 
 
 
+_HAS_SEQ = {}
+
+
+def has_seq(t):
+    """does the term mention a sequence-sorted subterm (memoised on the AST id)"""
+    i = t.get_id()
+    r = _HAS_SEQ.get(i)
+    if r is None:
+        if z3.is_seq(t):
+            r = True
+        else:
+            r = any(has_seq(c) for c in t.children())
+        _HAS_SEQ[i] = r
+    return r
+
+
 def zsum(terms):
     terms = list(terms)
     if not terms:
@@ -616,10 +632,25 @@ class Exec:
         zz = z3.simplify(z)
         if z3.is_int_value(zz):
             return [zz.as_long()]
-        vals = []
+        # 1st try a relaxation: only the sequence-free part of the context (a superset of the feasible values is fine:
+        # every use guards each candidate c by `z == c`); this keeps the enumeration inside linear arithmetic
+        if not has_seq(zz):
+            s = z3.Solver()
+            s.set('timeout', 8000)
+            for f in list(st.facts) + list(st.pc):
+                if not has_seq(f):
+                    s.add(f)
+            r = self._enumerate(s, z, limit)
+            if r is not None:
+                return r
         s = self.solver(st)
+        s.set('timeout', 8000)
+        return self._enumerate(s, z, limit)
+
+    def _enumerate(self, s, z, limit):
+        vals = []
         for _ in range(limit + 1):
-            r = self.check(s)
+            r = self.check(s, budget=10.0)
             if r == z3.unknown:
                 return None
             if r != z3.sat:
